@@ -274,6 +274,18 @@ theorem add_glyphs_a4_mask (fmtOf : Nat → Fmt) (k4 : Nat) (h4 : fmtOf k4 = fa4
   add_glyphs_is_per_glyph_add (addSameOf fa4) (fun k => addWhiteOf false (fmtOf k) fa4) k4
     (fun v d => by rw [h4]; exact hsame_a4 v d) ok m
 
+/-- the same instance for any mask format whose `hsame` is known (`hsame_a8`, `hsame_a1`,
+    `hsame_a8r8g8b8` with `caOf kf = true`): `caOf k` says whether glyph format `k` is a
+    component-alpha mask (alpha and colour: the cache sets component_alpha on such glyph images) -/
+theorem add_glyphs_mask_of (f : Fmt) (fmtOf : Nat → Fmt) (caOf : Nat → Bool) (kf : Nat) (hk : fmtOf kf = f)
+    (hs : ∀ v d, addSameOf f v 0 d = addWhiteOf (caOf kf) f f 0xffffffff v d)
+    {maskW maskH offX offY : Int} {glyphs : List Placed}
+    (ok : AddOK maskW maskH offX offY glyphs) (m : Canvas) :
+    addGlyphs (addSameOf f) (fun k => addWhiteOf (caOf k) (fmtOf k) f) kf maskW maskH offX offY glyphs m =
+      glyphs.foldl (perGlyphAdd (fun k => addWhiteOf (caOf k) (fmtOf k) f) maskW maskH offX offY) m :=
+  add_glyphs_is_per_glyph_add (addSameOf f) (fun k => addWhiteOf (caOf k) (fmtOf k) f) kf
+    (fun v d => by rw [hk]; exact hs v d) ok m
+
 /-! ## order independence -/
 
 private theorem sat_fold (B : Nat) (f : Nat → Nat → Nat) (hf : ∀ m d, m ≤ B → d ≤ B → f m d = min B (d + m))
